@@ -55,6 +55,8 @@ type ThreadInfo struct {
 	// LastPreempt is the function in which the thread was last preempted
 	// (descheduled while still enabled); "-" if never.
 	LastPreempt string
+	// LastPreemptStack: innermost frames (function:line) at that preemption.
+	LastPreemptStack []string
 }
 
 // Result of one controlled execution.
@@ -75,36 +77,38 @@ type Thread struct {
 	Name   string
 	Daemon bool
 
-	wake     chan struct{}
-	exited   chan struct{}
-	started  bool
-	finished bool
-	blocked  bool
-	ready    func() bool
-	what     string
-	pcs      [10]uintptr
-	npc      int
-	recov    string // text of the last recovered panic (sched.Recover)
-	stackTxt string // debug.PrintStack replacement
-	fp       uint64 // fingerprint of the park position
-	lastPre  string
+	wake      chan struct{}
+	exited    chan struct{}
+	started   bool
+	finished  bool
+	blocked   bool
+	ready     func() bool
+	what      string
+	pcs       [10]uintptr
+	npc       int
+	recov     string // text of the last recovered panic (sched.Recover)
+	stackTxt  string // debug.PrintStack replacement
+	fp        uint64 // fingerprint of the park position
+	lastPre   string
+	lastPrePC [10]uintptr
+	lastPreN  int
 }
 
 // Sched is the scheduler of one execution.
 type Sched struct {
-	cfg     Config
-	ch      Chooser
-	threads []*Thread
-	cur     *Thread
-	steps   int
-	over    bool
-	dead    bool
-	done    chan struct{}
-	res     *Result
-	chans   map[unsafe.Pointer]*chanState
-	epoch   uint64
-	states  map[uint64]struct{}
-	rep     Replayer
+	cfg       Config
+	ch        Chooser
+	threads   []*Thread
+	cur       *Thread
+	steps     int
+	over      bool
+	dead      bool
+	done      chan struct{}
+	res       *Result
+	chans     map[unsafe.Pointer]*chanState
+	epoch     uint64
+	states    map[uint64]struct{}
+	rep       Replayer
 	inQuiesce bool
 }
 
@@ -152,6 +156,8 @@ func Run(ch Chooser, cfg Config, main func()) *Result {
 		ti := ThreadInfo{ID: th.ID, Name: th.Name, Daemon: th.Daemon, Finished: th.finished, Blocked: th.blocked, What: th.what, LastPreempt: th.lastPre}
 		if ti.LastPreempt == "" {
 			ti.LastPreempt = "-"
+		} else {
+			ti.LastPreemptStack = framesN(th.lastPrePC[:th.lastPreN], 8)
 		}
 		if !th.finished {
 			ti.Stack = frames(th.pcs[:th.npc])
@@ -211,7 +217,9 @@ func describeDeadlock(r *Result) string {
 	return b.String()
 }
 
-func frames(pcs []uintptr) []string {
+func frames(pcs []uintptr) []string { return framesN(pcs, 4) }
+
+func framesN(pcs []uintptr, max int) []string {
 	if len(pcs) == 0 {
 		return nil
 	}
@@ -225,7 +233,7 @@ func frames(pcs []uintptr) []string {
 				fn = fn[i+1:]
 			}
 			out = append(out, fmt.Sprintf("%s:%d", fn, f.Line))
-			if len(out) >= 4 {
+			if len(out) >= max {
 				break
 			}
 		}
@@ -475,6 +483,7 @@ func Point(op string) (*Sched, *Thread) {
 	if c != 0 {
 		s.capture(t, op)
 		t.lastPre = whereFunc()
+		t.lastPrePC, t.lastPreN = t.pcs, t.npc
 		s.switchTo(t, others[c-1])
 	}
 	return s, t
